@@ -224,6 +224,7 @@ bool ossOperationsFacet::SaveOperationResult(
 ) {
   auto& opHandle = operations.at(pid);
   assert(opHandle != nullptr);
+  const auto oldCoreHash = core.Src()(pid)->coreHash;
   bool resultSaved{ false };
   {
     // Note: only the result of this operation is rewritten silently, operands synchronized later must be able to announce changes
@@ -237,9 +238,14 @@ bool ossOperationsFacet::SaveOperationResult(
     opHandle->translations = std::move(opResult.translation);
     opHandle->broken = false;
     opHandle->outdated = false;
+    // Note: the result was rewritten silently, so operations built on it are told here that their operand changed
+    const auto coreChanged = core.Src()(pid)->coreHash != oldCoreHash;
     for (const auto& child : core.Graph().ChildrenOf(pid)) {
       const auto index = core.Graph().ParentIndex(pid, child).value(); // NOLINT(bugprone-unchecked-optional-access)
       UpdateChild(child, index, old2New);
+      if (coreChanged) {
+        operations.at(child)->outdated = true;
+      }
     }
     return true;
   }
